@@ -21,7 +21,7 @@ ID = "C04"
 LEVEL = "exploration"
 BATCH = 1
 TIMEOUT = 3000
-REQUIRED_OBS = ["element_sums_checked", "charge_sums_checked", "helper_values_checked", "backend_dense", "backend_sparse",
+REQUIRED_OBS = ["element_sums_checked", "charge_sums_checked", "helper_values_checked", "backend_dense", "backend_sparse", "tag_spelling_upper_replace",
                 "tag_mixed_electron_spelling", "tag_ice_species", "tag_labelled_species"]
 RULE = ("networks balanced by construction (ions, electrons spelt e-/E-/E/e, ortho/para labels, D isotopologues, ice species "
         "with gas counterparts under '#' and 'G' prefixes, entry via API or merged files with different spellings) x injected "
@@ -42,9 +42,17 @@ def respell(name, spelling, prefix):
 
 def make_case(rng, tier):
     surface = rng.random() < 0.4
-    net = chem.balanced_network(rng, rng.randint(4, 10), rng.randint(2, 16), electron="e-", surface=surface, labels=True)
-    reacs = net["reactions"]
+    upper = rng.random() < 0.25
+    net = chem.balanced_network(rng, rng.randint(4, 10), rng.randint(2, 16), electron="e-", surface=surface, labels=not upper)
     case = {"net": net, "entry": "api", "indexed": True}
+    if upper:
+        # the UCLCHEM way of spelling (upper-case symbols + replacement table): anions, cations and ice species must keep
+        # their identity through the renaming
+        un = chem.upper_variant(net)
+        if un is not None:
+            net = case["net"] = un
+            case["spelling"] = "upper_replace"
+    reacs = net["reactions"]
     case["alphas"] = chem.distinct_alphas(rng, len(reacs))
     if reacs and rng.random() < 0.5:
         # file entry with per-file spellings of the electron and of the surface prefix
@@ -55,9 +63,9 @@ def make_case(rng, tier):
         chunks, ok = [], True
         for a, b in zip(bounds, bounds[1:]):
             idxs = list(range(a, b))
-            spelling = rng.choice(SPELL)
+            spelling = rng.choice(SPELL if not case.get("spelling") else ["E-"])
             cands = []
-            for f in ("kida", "umist", "naunet", "leeds"):
+            for f in (("kida", "umist", "naunet", "leeds") if not case.get("spelling") else ("kida", "umist", "naunet")):
                 pref = "G" if f == "leeds" else "#"
                 rs = [dict(reacs[i], reactants=[respell(x, spelling, pref) for x in reacs[i]["reactants"]],
                            products=[respell(x, spelling, pref) for x in reacs[i]["products"]]) for i in idxs]
@@ -71,7 +79,7 @@ def make_case(rng, tier):
             case["entry"] = "files"
             case["chunks"] = chunks
             case["alphas"] = [round(a, 2) for a in case["alphas"]]
-    elif reacs and rng.random() < 0.5:
+    elif reacs and rng.random() < 0.5 and not case.get("spelling"):
         case["electron_api"] = rng.choice(SPELL)
     names = [s["name"] for s in net["species"]]
     case["ys"] = []
@@ -108,14 +116,15 @@ def build_network(case, work):
     from naunet.species import Species
     Species.reset()
     net, alphas = case["net"], case["alphas"]
+    S.install_spelling(case)
     S.provide_binding_energies(net)
     if case["entry"] == "api":
-        sp = case.get("electron_api", "e-")
+        sp = case.get("electron_api", "E-" if case.get("spelling") else "e-")
         rl = []
         for r, a in zip(net["reactions"], alphas):
             res = [respell(x, sp, "#") for x in r["reactants"]] + ([r["pseudo"]] if r.get("pseudo") else [])
             rl.append(Reaction(res, [respell(x, sp, "#") for x in r["products"]], alpha=a, reaction_type=RT.GAS_TWOBODY, idxfromfile=r["idx"]))
-        return Network(rl)
+        return Network(rl, **S.spelling_kwargs(case))
     files, fmts = [], []
     for ci, ch in enumerate(case["chunks"]):
         fmt = ch["format"]
@@ -132,7 +141,7 @@ def build_network(case, work):
         p.write_text("\n".join(lines) + "\n")
         files.append(str(p))
         fmts.append(fmt)
-    return Network(filelist=files, fileformats=fmts)
+    return Network(filelist=files, fileformats=fmts, **S.spelling_kwargs(case))
 
 
 def run_case(case, ctx):
@@ -235,6 +244,10 @@ def run_case(case, ctx):
         tags.add("electron")
     if any("D" in s["comp"] for s in species):
         tags.add("deuterated")
+    if case.get("spelling"):
+        tags.add("spelling_" + case["spelling"])
+        if any(s["charge"] < 0 and not s["electron"] for s in species):
+            tags.add("anion_under_replacement")
     if case["entry"] == "files":
         tags.add("file_entry")
         if len({c["electron"] for c in case["chunks"]}) > 1 and any(s["electron"] for s in species):
